@@ -28,7 +28,8 @@ Inductive exn := IosFailure | RangeError | OutOfRange | InvalidArgument | Length
 
 (* Undefined behaviour the C++ would run into: the model stops and names the site. *)
 Inductive ub_tag := IdxOOB (site : nat) | EmptyVec (site : nat) | CastRange (site : nat)
-                  | SignedOverflow (site : nat) | Fuel.
+                  | SignedOverflow (site : nat) | Fuel
+                  | Blowup (site : nat).   (* work or memory proportional to a size the file merely declares *)
 
 (* state + exception monad; a throw keeps the state reached so far (C10 is about it) *)
 Inductive res (S A : Type) := ROk (a : A) (s : S) | RThrow (e : exn) (s : S) | RUB (t : ub_tag).
